@@ -45,7 +45,8 @@ RULE = (
     "samples, or reaches / starts at / starts past the end of the file. "
     "resample: every (source, target) rate pair x length x channels x first-sample index; non-trivial when the rates "
     "differ and an array is produced. spectrogram: every source rate x window x hop x channels x first-sample index; "
-    "non-trivial when window or hop is a fractional number of samples. distinct = distinct case descriptor."
+    "non-trivial when window or hop is a fractional number of samples. rewrite: every ordered pair of 4 file parameter sets written one after "
+    "the other to the same path, Recording.from_file + load_recording after each write. distinct = distinct case descriptor."
 )
 ASSUMPTIONS = [
     "PCM-16 WAV files only; libsndfile returns int/32768 as float64, which is exact, so frame values are compared with ==",
@@ -317,6 +318,8 @@ def run_clip(case):
         out.fail("no_crash_in_domain", describe(ex), "a Clip", {"fn": "Clip", "kind": "crash"})
         out.klass = "clip/noclip"
         return out
+    out.expect("inputs_as_given", clip.start_time == s and clip.end_time == e, [clip.start_time, clip.end_time], [s, e],
+               {"fn": "Clip", "kind": "times_not_as_given"})
     st, r = call(audio.load_clip, clip)
     out.klass = "clip/%s/%s/%s" % (reg, mode, st)
     if st != "ok":
@@ -512,6 +515,49 @@ def run_spectrogram(case):
 LATTICE_PARTS = {"quick": 2, "thorough": 4}
 
 
+# ---------------------------------------------------------------- rewrite space (history: the file at one path is replaced)
+REWRITE_PARAMS = [(8, 16, 1), (10, 24, 2), (4000, 64, 1), (8000, 64, 3)]
+
+
+def run_rewrite(case):
+    """Write file A at a path, build and load its recording; replace the file by B at the same path, build and load again:
+    the second recording and its frames are B's (what was learnt about A must not be served for B)."""
+    out = Out(case)
+    a, b = tuple(case["first"]), tuple(case["second"])
+    path = os.path.join(_dir(), "rw_%d_%d_%d__%d_%d_%d.wav" % (a + b))
+    out.nontrivial = True
+    for which, (rate, frames, ch) in (("first", a), ("second", b)):
+        M.write_wav(path, rate, frames, ch)
+        _, _, fr = M.read_wav(path)
+        st, rec = call(data.Recording.from_file, path, compute_hash=False, uuid=U("c15:rw:%s" % which))
+        out.transitions += 1
+        cls = {"fn": "Recording.from_file", "kind": "rewritten_file", "which": which}
+        if st != "ok":
+            out.fail("no_crash_in_domain", describe(rec), "a Recording", cls)
+            break
+        got = [rec.samplerate, rec.channels, round(rec.duration * rate)]
+        out.expect("recording_describes_file", got == [rate, ch, frames], got, [rate, ch, frames], cls)
+        st, arr = call(audio.load_recording, rec)
+        out.transitions += 1
+        cls = {"fn": "load_recording", "kind": "rewritten_file", "which": which}
+        if st != "ok":
+            out.fail("no_crash_in_domain", describe(arr), "an array of %d frames" % frames, cls)
+            break
+        exp = M.expected_frames(fr, 0, frames, ch)
+        gotv = arr.data.tolist() if arr.dims == ("time", "channel") else None
+        out.expect("frame_values", gotv == exp, _head(gotv), _head(exp), cls)
+        coords = [float(x) for x in arr.coords["time"].data]
+        worst, at = M.times_on_lattice(coords, 0, rate) if coords else (0.0, 0)
+        out.expect("frame_times", worst <= TOL, {"index": at, "off_in_steps": worst}, "i / %d" % rate, cls)
+    try:
+        os.remove(path)
+    except OSError:
+        pass
+    out.validated = out.transitions
+    out.klass = "rewrite/%s" % ("ok" if not out.viol else "stale")
+    return out
+
+
 def blocks(tier):
     c = cfg(tier)
     out = []
@@ -531,6 +577,7 @@ def blocks(tier):
         for te in c["te"]:
             if te_ok(rate, te):
                 out.append({"space": "clip_boundary", "tier": tier, "rate": rate, "te": te})
+    out.append({"space": "rewrite", "tier": tier})
     for src in c["resample_rates"]:
         out.append({"space": "resample", "tier": tier, "src": src})
     for rate in spec_rates(c):
@@ -561,6 +608,9 @@ def cases_of(block):
             for ch in CHANNELS:
                 for i, j in clip_pairs(pts):
                     yield clip_case(rate, frames, ch, te, pts[i], pts[j])
+    elif sp == "rewrite":
+        for a, b in itertools.permutations(REWRITE_PARAMS, 2):
+            yield {"space": "rewrite", "first": list(a), "second": list(b)}
     elif sp == "resample":
         c = cfg(block["tier"])
         for tgt, n, ch, first in itertools.product(c["resample_rates"], c["resample_lengths"], c["resample_channels"],
@@ -582,6 +632,8 @@ def run_case(case):
         return run_recording(case)
     if sp == "clip":
         return run_clip(case)
+    if sp == "rewrite":
+        return run_rewrite(case)
     if sp == "resample":
         return run_resample(case)
     if sp == "spectrogram":
